@@ -365,6 +365,11 @@ func (t *Tokenizer) tokenizeBuffer(buf []byte, last bool) {
 			t.tmp = append(t.tmp, b)
 		case tokenSpc:
 			t.addToken(string(t.tmp))
+		case tokenQuote:
+			// The token ends at a quote just as in the whole buffer scan of
+			// tokenStart. The quote is then taken in the mode after the token.
+			t.addToken(string(t.tmp))
+			off--
 		case tokenColon:
 			t.addToken(string(t.tmp))
 			t.mode = valueMap
